@@ -20,6 +20,7 @@ SIG_CAS = "C10:close-loses-state-CAS-returns-nil-stream-not-closed"
 SIG_GHOST = "C10:data-in-flight-to-locally-closed-server-stream-recreates-stream-id"
 SIG_SELFWAIT = "C10:Close-inside-OnData-waits-for-its-own-goroutine"
 SIG_FLUSH = "C10:Flush-after-a-returned-Close-succeeds"
+SIG_RESIDUE = "C10:late-arrival-moved-into-recvBuf-after-clean-is-never-recycled"
 
 
 def t_signature(c, msg):
